@@ -368,7 +368,15 @@ class DataFrameSchemaBackend(PolarsSchemaBackend):
 
         # Append missing columns
         check_obj = check_obj.with_columns(
-            **{k: v.default for k, v in missing_cols_schema.items()}
+            **{
+                # a plain string would be interpreted as a column name
+                k: (
+                    v.default
+                    if isinstance(v.default, pl.Expr)
+                    else pl.lit(v.default)
+                )
+                for k, v in missing_cols_schema.items()
+            }
         ).cast({k: v.dtype.type for k, v in missing_cols_schema.items()})
 
         # Set column order
